@@ -84,13 +84,32 @@ def extract(ctx):
     ctx.write('raw.hpp', raw)
     ctx.write('native.cpp', NATIVE_PRELUDE + '#include "raw.hpp"\ntemplate struct souffle::PiggyList<unsigned long>;\ntemplate struct souffle::RandomInsertPiggyList<unsigned long>;\n')
     docs = rw.clang_ast('native.cpp', 'PiggyList', ctx.work)
-    hooks = [dict(func=r'std::size_t\s+createNode\s*\(\)\s*\{', name='createNode', k=0, args='this, new_index'),
-             dict(func=r'std::size_t\s+append\s*\(T\s+element\)\s*\{', name='append', k=0, args='this, new_index')]
+    # the hook reads the index obtained from m_size.fetch_add: the first local of the function (by declaration order, not by name)
+    hooks = [dict(func=r'std::size_t\s+createNode\s*\(\)\s*\{', name='createNode', k=0, args='this, ' + first_local(docs, 'createNode')),
+             dict(func=r'std::size_t\s+append\s*\(T\s+\w+\)\s*\{', name='append', k=0, args='this, ' + first_local(docs, 'append'))]
+    log['hook arguments (by role)'] = [h['args'] for h in hooks]
     text = rw.r9_hooks(raw, hooks, log)
     ctx.write('extracted.hpp', text)
     ctx.rewrites.update(log)
     ctx.dropped += ['PiggyList/RandomInsertPiggyList: constructors, copy constructors (memcpy), destructors, clear(), freeList(), iterator classes',
                     'SpinLock is replaced by a ghost mutex flag (mutual exclusion of sl.lock()/sl.unlock() assumed)']
+
+
+def first_local(docs, fname):
+    found = []
+
+    def visit(n, parents):
+        if n.get('kind') == 'CXXMethodDecl' and n.get('name') == fname and any(c.get('kind') == 'CompoundStmt' for c in n.get('inner', []) or []):
+            found.append(n)
+    for d in docs:
+        rw.walk(d, visit)
+    if not found:
+        raise ExtractError('clang AST: no definition of %s' % fname)
+    locs = []
+    rw.walk(found[0], lambda n, p: locs.append(n['name']) if n.get('kind') == 'VarDecl' and n.get('name') else None)
+    if not locs:
+        raise ExtractError('%s: no local variable holds the index returned by m_size.fetch_add' % fname)
+    return locs[0]
 
 
 def harnesses(ctx):
